@@ -1,32 +1,44 @@
 """C10 — downloads complete whenever an honest full source is reachable (Transfer.tla liveness + Picker.tla idle clause; driver harness/xfer)."""
-import random
+import random, re
 import vlib, xfer_common as xc
 
 
 def run(ctx):
     ctx.level = "model_checking"
-    ctx.cov["rule"] = ("download scenarios = layout class x picker mode x source mix (peer / web seed / both / split bitfields) x benign and hostile "
-                       "fault schedules of the other peers, with an honest full source reachable; non-trivial = more than one source or a faulty "
-                       "peer; distinct = distinct (layout, unit, mode, sources, policies)")
-    ctx.assumptions += ["bounded-time judgement of liveness: completion within the scenario time-out (8 s for torrents of <= 6 pieces on loopback)",
+    ctx.cov["rule"] = ("download scenarios = layout class x picker mode x start mode (.torrent / magnet link, empty or pre-filled storage) x source mix "
+                       "(peer / web seed / both / split bitfields / pair of web seeds on 48..72-piece torrents) x benign and hostile fault schedules "
+                       "of the other peers (incl. metadata stallers) x command/disk events (stop/start, failed storage write + Start, damage + Verify "
+                       "+ Start), with an honest full source reachable; non-trivial = more than one source, a faulty peer, a magnet start, "
+                       "pre-existing data or a command/disk event; distinct = distinct (layout, unit, mode, sources, policies, start mode, events)")
+    ctx.assumptions += ["bounded-time judgement of liveness: a download is stuck when neither the metadata nor a further piece arrived for the "
+                        "scenario time-out (8-15 s for torrents of <= 6 pieces, 40 s for 48..160 pieces, on loopback; total wait <= 4 time-outs); "
+                        "a time-out is reported only if the same scenario times out again when re-executed in isolation",
+                        "web-seed response timeouts are raised to 15-30 s in the harness (a slow recording storage must not disable an honest web seed)",
                         "liveness under fairness is model-checked on the design model (MC_Transfer_live), tested on the implementation"]
     ctx.tlc_mc("MC_Transfer", "MC_Transfer_live.cfg", timeout=900)
     if not ctx.quick():
         ctx.tlc_mc("MC_Picker", "MC_Picker.cfg", timeout=1800)   # idle-peer clause at design level (quick: covered by ./check C09)
     drv = ctx.build_go("xfer")
     rng = random.Random(ctx.seed + 77)
-    scs = xc.gen_scenarios(rng, ctx.pick(120, 1500), "c10")
+    scs = xc.gen_scenarios(rng, ctx.pick(150, 1800), "c10")
+    scs += xc.gen_heavy(rng, ctx.pick(6, 30), len(scs) + 1, "c10")
     by_id = {s["id"]: s for s in scs}
-    raws, crashed = xc.run_scenarios(ctx, drv, scs, nproc=ctx.pick(8, 12))
+    raws, crashed = xc.run_scenarios(ctx, drv, scs, nproc=ctx.pick(8, 12), per_timeout=60)
     abstract = {}
     for rp in raws:
         abstract.update(xc.project(rp, {c["id"] for c in crashed}))
     for sid, evs in abstract.items():
         s = by_id[sid]
-        key = (s["layout"], s["unit"], s.get("seq"), tuple((p["policy"], p.get("have"), p.get("listen", False)) for p in s["peers"]),
-               tuple(w["policy"] for w in s.get("webseeds", [])))
-        ctx.count_case(key, len(s["peers"]) + len(s.get("webseeds", [])) > 1 or any(p["policy"] != "honest" for p in s["peers"]))
+        key = (s["layout"], s["unit"], s.get("seq"), tuple((p["policy"], p.get("have"), p.get("listen", False), p.get("meta")) for p in s["peers"]),
+               tuple(w["policy"] for w in s.get("webseeds", [])), bool(s.get("magnet")), s.get("prefill"), s.get("after"),
+               tuple((t["do"], t["n"]) for t in s.get("timing", [])))
+        ctx.count_case(key, len(s["peers"]) + len(s.get("webseeds", [])) > 1 or any(p["policy"] != "honest" for p in s["peers"])
+                       or bool(s.get("magnet") or s.get("prefill") or s.get("after") or s.get("timing")))
         ctx.oblig("C10.live(complete|timeout)", sum(1 for e in evs if e["ev"] in ("complete", "timeout")))
+        if s.get("magnet"):
+            ctx.oblig("C10.live(magnet)", sum(1 for e in evs if e["ev"] in ("complete", "timeout")))
+        if s.get("after"):
+            ctx.oblig("C10.live(second completion after damage+verify)", max(0, sum(1 for e in evs if e["ev"] in ("complete", "timeout")) - 1))
     if abstract:
         first = sorted(abstract)[0]
         ctx.sample({"scenario": by_id[first], "abstract_trace_tail": abstract[first][-6:]})
@@ -35,7 +47,16 @@ def run(ctx):
     ctx.extra["scenarios_crashed"] = [{"id": c["id"], "panic": c["panic"], "scenario": c["scenario"]} for c in crashed]
     if len(abstract) < 0.8 * len(scs):
         raise vlib.MachineryError("only %d of %d scenarios produced a complete trace" % (len(abstract), len(scs)))
-    if ctx.obligation_counts.get("C10.live(complete|timeout)", 0) == 0:
-        raise vlib.MachineryError("vacuous run")
-    foreign = xc.judge(ctx, abstract, by_id, ["C10.", "C01.d"], "C01")
+    for tag in ("C10.live(complete|timeout)", "C10.live(magnet)", "C10.live(second completion after damage+verify)"):
+        if ctx.obligation_counts.get(tag, 0) == 0:
+            raise vlib.MachineryError("vacuous run: %s never evaluated" % tag)
+    # the process died in the middle of a download that had an honest source: the download did not complete
+    for c in crashed:
+        s = c["scenario"]
+        if s.get("honest"):
+            site = re.sub(r"0x[0-9a-f]+|\d+", "N", c["panic"] or "rc=%s" % c["rc"])[:120]
+            ctx.violation("C10.live.crash", "tag=C10.live.crash layout=%s fam=%s panic=%s" % (re.sub(r"\d+$", "", s["layout"]), xc.fam_of(s), site),
+                          "the client process died during a download with an honest source reachable (%s)" % (c["panic"] or "no panic line"),
+                          {"scenario": s, "stderr_tail": c["stderr_tail"]})
+    foreign = xc.judge(ctx, abstract, by_id, ["C10.", "C01.d"], "C01", drv=drv)
     ctx.extra["foreign_tags"] = {k: len(v) for k, v in foreign.items()}
